@@ -151,6 +151,22 @@ theorem accumulate_eq_fold {α : Type} [Add α] {g : FlowGrid} (hg : WF g) (hr :
   rw [h2.2 _ (lt_of_valid hv).1, final_value hT nodata F F hv, if_neg (by omega)]
   rfl
 
+/-- the kernel itself, on an arbitrary accumulation buffer `acc0` (values `A0`): terminal cells are overwritten with
+the no-data value, every other cell keeps its initial value and receives `F u` for every cell `u` strictly upstream —
+so the wrapper's initialisation "accumulation = copy of the field" is what makes each cell count itself -/
+theorem cAccumulate_eq_fold {α : Type} [Add α] {g : FlowGrid} (hg : WF g) (hr : 1 ≤ g.nrows) {m : Int}
+    (hm : 1 ≤ m) (hT : AllTerminate g (fuelOf m)) (nodata : α) {field acc0 : Array α} {F A0 : Nat → α}
+    (hF : Rep g.ntot.toNat field F) (hA : Rep g.ntot.toNat acc0 A0)
+    {acc : Array α} (hacc : cAccumulate g m nodata field acc0 = .ok acc)
+    {c : Int} (hv : validCell g.nrows g.ncols c = true) :
+    acc[c.toNat]? = some (if dn g c < 0 then nodata else (List.range g.ntot.toNat).foldl
+      (fun s (u : Nat) => if onPath g (fuelOf m) (u : Int) c then s + F u else s) (A0 c.toNat)) := by
+  obtain ⟨acc', h1, h2⟩ := cAccumulate_spec hg hm hr (nodata := nodata) hF hA
+  rw [hacc] at h1
+  cases h1
+  rw [h2.2 _ (lt_of_valid hv).1, final_value hT nodata F A0 hv]
+  rfl
+
 /-- `onPath` in the fold above means "some positive number of downstream steps leads from `u` to `c`" -/
 theorem onPath_iff_drains {g : FlowGrid} {fuel : Nat} (hT : AllTerminate g fuel) {u c : Int}
     (hu : validCell g.nrows g.ncols u = true) (hc : 0 ≤ c) :
